@@ -447,24 +447,77 @@ class Program:
         f = t.get("f")
         return f["id"] if f else None
 
-    def callee_targets(self, t):
+    def _impl_fn_index(self):
+        """(trait id, self type string) -> {method name: fn id} over workspace impls."""
+        if getattr(self, "_ifi", None) is None:
+            idx = {}
+            for im in self.impls:
+                tr = im.get("trait")
+                if not tr:
+                    continue
+                key = (tr, self.impl_self_str(im))
+                d = idx.setdefault(key, {})
+                rhs = None
+                ta = im.get("trait_args", [])
+                if len(ta) > 1 and isinstance(ta[1], int):
+                    rhs = self.tstr(im["crate"], ta[1])
+                for it in im["items"]:
+                    if it["is_fn"]:
+                        d.setdefault(it["name"], []).append((rhs, it["id"]))
+            self._ifi = idx
+        return self._ifi
+
+    def _std_bridge_targets(self, crate, f):
+        """Edges hidden inside std's blanket impls: Into::into -> From::from, ToString/format -> Display::fmt."""
+        fid = f["id"]
+        targs = [self.tstr(crate, a) for a in f.get("args", []) if isinstance(a, int)]
+        idx = self._impl_fn_index()
+        out = []
+        if fid == "core::convert::Into::into" and len(targs) >= 2:
+            for rhs, i in idx.get(("core::convert::From", targs[1]), {}).get("from", []):
+                if rhs == targs[0]:
+                    out.append(i)
+        elif fid in ("core::fmt::rt::{impl#0}::new_display", "alloc::string::ToString::to_string") and targs:
+            ty = targs[-1] if fid.startswith("core::fmt") else targs[0]
+            ty = ty.lstrip("&")
+            for rhs, i in idx.get(("core::fmt::Display", ty), {}).get("fmt", []):
+                out.append(i)
+        elif fid == "core::fmt::rt::{impl#0}::new_debug" and targs:
+            ty = targs[-1].lstrip("&")
+            for rhs, i in idx.get(("core::fmt::Debug", ty), {}).get("fmt", []):
+                out.append(i)
+        elif fid == "core::convert::TryInto::try_into" and len(targs) >= 2:
+            for rhs, i in idx.get(("core::convert::TryFrom", targs[1]), {}).get("try_from", []):
+                if rhs == targs[0]:
+                    out.append(i)
+        elif fid == "core::str::{impl#0}::parse" or fid.endswith("str::parse"):
+            if targs:
+                for rhs, i in idx.get(("core::str::traits::FromStr", targs[0]), {}).get("from_str", []):
+                    out.append(i)
+        return [i for i in out if i in self.fns]
+
+    def callee_targets(self, t, crate=None):
         """Workspace functions a call may reach (static target or CHA over impls)."""
         f = t.get("f")
         if not f:
             return []
+        if crate is not None and not f["krate"].startswith("liquid"):
+            b = self._std_bridge_targets(crate, f)
+            if b:
+                return b
         r = f.get("res")
         tr = f.get("trait")
         if r and r.get("kind") == "Item" and not (tr and r["id"] == f["id"] and self._is_required(tr, f["id"])):
             if r["id"] in self.fns:
                 # resolved to an item; a trait default body resolved for an unknown Self still dispatches
                 if tr and r["id"] == f["id"]:
-                    return self._cha(tr, f["id"])
+                    return self._cha(tr, f["id"], f, crate)
                 return [r["id"]]
             if tr and r["id"] == f["id"]:
-                return self._cha(tr, f["id"])
+                return self._cha(tr, f["id"], f, crate)
             return []
         if tr:
-            return self._cha(tr, f["id"])
+            return self._cha(tr, f["id"], f, crate)
         return [f["id"]] if f["id"] in self.fns else []
 
     def _is_required(self, trait_id, mid):
@@ -476,12 +529,41 @@ class Program:
                 return not m["has_default"]
         return False
 
-    def _cha(self, trait_id, mid):
+    def _cha(self, trait_id, mid, f=None, crate=None):
         name = mid.rsplit("::", 1)[1]
-        out = [i for i in self.impl_index().get((trait_id, name), []) if i in self.fns]
+        out = []
+        want_rhs = want_self = None
+        if f is not None and crate is not None:
+            targs = [self.tstr(crate, a) if isinstance(a, int) else None for a in f.get("args", [])]
+            if len(targs) > 1 and targs[1] and self._is_concrete(targs[1]):
+                want_rhs = targs[1]
+            if targs and targs[0] and self._is_concrete(targs[0]) and not targs[0].startswith("dyn "):
+                want_self = targs[0]
+        for im in self.impls:
+            if im.get("trait") != trait_id:
+                continue
+            if want_rhs is not None:
+                ta = im.get("trait_args", [])
+                if len(ta) > 1 and isinstance(ta[1], int):
+                    r = self.tstr(im["crate"], ta[1])
+                    if self._is_concrete(r) and r != want_rhs:
+                        continue
+            if want_self is not None:
+                st = self.impl_self_str(im)
+                if self._is_concrete(st) and st.split("<")[0].lstrip("&") != want_self.split("<")[0].lstrip("&"):
+                    continue
+            for it in im["items"]:
+                if it["is_fn"] and it["name"] == name and it["id"] in self.fns:
+                    out.append(it["id"])
         if mid in self.fns:
             out.append(mid)
         return out
+
+    @staticmethod
+    def _is_concrete(s):
+        """A type string with no bare type parameter at its head (heuristic: params are short capitalised idents)."""
+        head = s.lstrip("&").replace("mut ", "").split("<")[0]
+        return "::" in head or head in ("str", "bool", "char", "i64", "f64", "i32", "u8", "usize", "isize", "u64", "u32", "f32", "i8", "i16", "u16", "()") or head.startswith(("[", "(", "dyn "))
 
     def callgraph(self):
         if self._callgraph is None:
@@ -491,7 +573,7 @@ class Program:
                 for b in fn.blocks:
                     t = b["t"]
                     if t["k"] == "call":
-                        out.update(self.callee_targets(t))
+                        out.update(self.callee_targets(t, fn.crate))
                         for a in t["args"]:
                             self._fn_operand_targets(a, out)
                     for st in b["s"]:
